@@ -13,6 +13,8 @@ import InToto.Proofs.PipeInspect
 import InToto.Proofs.RulesMore
 import InToto.Proofs.Sign
 import InToto.Proofs.NoPanic
+import InToto.Generated.Facts
+import InToto.Model.StageOrder
 
 namespace InToto.C15
 open InToto InToto.Metadata InToto.Verify
@@ -60,5 +62,12 @@ theorem inspections_never_panic (W : World) (rd : Str) (insps : List Inspection)
 
 /-- the repaired defects as kernel-checked facts: the empty rule is an error -/
 theorem empty_rule_is_error : (Rules.unpackRule []).isOk = false ∧ (Rules.unpackRule []).isPanic = false := by decide
+
+/-- REGENERATED FACT (stage order): the guard "every step still has a link" (repair of finding F16)
+    stands, unconditionally, after the two stages that can take links away and before the stage that
+    indexes into them -/
+theorem facts_steps_have_links_guard_position :
+    (StageOrder.before Generated.stagesInTotoVerify "VerifyLinkSignatureThesholds" "verifyStepsHaveLinks" && StageOrder.before Generated.stagesInTotoVerify "VerifySublayouts" "verifyStepsHaveLinks" && StageOrder.before Generated.stagesInTotoVerify "verifyStepsHaveLinks" "ReduceStepsMetadata") = true ∧
+    (StageOrder.before Generated.stagesInTotoVerifyWithDirectory "VerifyLinkSignatureThesholds" "verifyStepsHaveLinks" && StageOrder.before Generated.stagesInTotoVerifyWithDirectory "VerifySublayouts" "verifyStepsHaveLinks" && StageOrder.before Generated.stagesInTotoVerifyWithDirectory "verifyStepsHaveLinks" "ReduceStepsMetadata") = true := by decide
 
 end InToto.C15
